@@ -59,6 +59,7 @@ CONSTANTS MaxDepth,   \* nesting depth of compound statements (seq does not coun
 HSetsAll   == {<<"A">>, <<"B">>, <<"C", "A">>, <<"*">>}
 HSetsSmall == {<<"A">>, <<"C", "A">>}
 HSetsOne   == {<<"A">>}
+HSetsWide  == {<<"B">>, <<"C", "A">>, <<"*">>}
 
 ---------------------------------------------------------------------------
 (* statements *)
@@ -139,6 +140,8 @@ DoRaise(st, cls, from) ==
 (* it had been caught again inside its own handler / finally block and then                  *)
 (*   - a second bare raise re-raised it, or                                                  *)
 (*   - its finally block ran to its end and had to let it propagate.                         *)
+(* `retover`: a pending `return` was overridden (jump or raise in a finally block, raising   *)
+(* __exit__) while still inside a loop (`ld` = loop depth) that encloses the return.         *)
 DoReraise(st) ==
   IF Top(st) # 0
   THEN LET d == Len(st.handled)
@@ -171,7 +174,8 @@ Finally(fin, r, pf) ==
   LET pend == r.sig.t = "raise"
       f    == Block(fin, IF pend THEN Push(r.st, r.sig.e) ELSE r.st, pf, 0, 0)
       fs   == [(IF pend THEN Pop(f.st) ELSE f.st) EXCEPT !.fins = @ + 1,
-                    !.again = @ \/ (pend /\ f.sig.t = "norm" /\ Len(f.st.handled) \in f.st.moved)]
+                    !.again = @ \/ (pend /\ f.sig.t = "norm" /\ Len(f.st.handled) \in f.st.moved),
+                    !.retover = @ \/ (r.sig.t = "ret" /\ f.sig.t # "norm" /\ f.st.ld >= 1)]
   IN Res(fs, IF f.sig.t = "norm" THEN r.sig ELSE f.sig)
 
 Exec(s, st, p) ==
@@ -184,7 +188,8 @@ Exec(s, st, p) ==
     [] s.t = "cnt"     -> Res(st, Continue)
     [] s.t = "seq"     -> LET r == Block(s.a, st, p * 8 + 1, 0, 0)
                           IN IF r.sig.t = "norm" THEN Block(s.b, r.st, p * 8 + 2, 0, 0) ELSE r
-    [] s.t = "loop"    -> ExecLoop(2, s, st, p)
+    [] s.t = "loop"    -> LET r == ExecLoop(2, s, [st EXCEPT !.ld = @ + 1], p)
+                          IN Res([r.st EXCEPT !.ld = st.ld], r.sig)
     [] s.t = "tf"      -> Finally(s.fin, Block(s.b, [st EXCEPT !.tries = @ + 1], p * 8 + 1, 0, 0), p * 8 + 2)
     [] s.t = "try"     ->
          LET n  == Len(s.hs)
@@ -207,7 +212,8 @@ Exec(s, st, p) ==
                       [] OTHER          -> Res(Pop(s2), Raise(e))
             ELSE LET s2 == Log(r.st, 4, p, 0)
                  IN IF s.cm = "raise"
-                    THEN LET s3 == NewExc(s2, "C", Top(s2)) IN Res(s3, Raise(Last(s3)))
+                    THEN LET s3 == NewExc(s2, "C", Top(s2))
+                         IN Res([s3 EXCEPT !.retover = @ \/ (r.sig.t = "ret" /\ s2.ld >= 1)], Raise(Last(s3)))
                     ELSE Res(s2, r.sig)
 
 ---------------------------------------------------------------------------
@@ -230,7 +236,7 @@ Init0(outer) ==
   [excs |-> IF outer THEN <<[cls |-> "Z", ser |-> 0, cause |-> 0, ctx |-> 0, sup |-> FALSE]>> ELSE <<>>,
    handled |-> IF outer THEN <<1>> ELSE <<>>,
    log |-> <<>>, ran |-> {}, nuser |-> 0, tries |-> 0, fins |-> 0,
-   base |-> IF outer THEN 1 ELSE 0, moved |-> {}, again |-> FALSE]
+   base |-> IF outer THEN 1 ELSE 0, moved |-> {}, again |-> FALSE, ld |-> 0, retover |-> FALSE]
 
 Eval(prog, outer) ==
   LET st0 == Init0(outer)
@@ -244,7 +250,7 @@ Eval(prog, outer) ==
       after |-> Desc(ex, Top(st)),                         \* sys.exc_info()[1] of the caller after the call
       ran   |-> st.ran,
       restored |-> st.handled = st0.handled /\ st.moved = {},
-      again |-> st.again,
+      again |-> st.again, retover |-> st.retover, ld |-> st.ld,
       tries |-> st.tries, fins |-> st.fins,
       nexc  |-> Len(ex), acyclic |-> \A k \in 1..Len(ex) : ChainLen(ex, k, Len(ex)) >= 0,
       ctxok |-> \A k \in 1..Len(ex) : ex[k].ctx < k /\ (ex[k].cause = 0 \/ ex[k].cause = k + 1),
@@ -314,7 +320,7 @@ Spec == Init /\ [][Next]_vars
 (* properties of the model *)
 
 \* every exit path of every statement leaves the stack of handled exceptions as it found it
-HandledRestored == \A o \in Outers : exp[o].restored /\ exp[o].after = (IF o THEN "Z[-,-,F]" ELSE "-")
+HandledRestored == \A o \in Outers : exp[o].restored /\ exp[o].ld = 0 /\ exp[o].after = (IF o THEN "Z[-,-,F]" ELSE "-")
 
 \* every try statement that was entered ran its finally block exactly once
 FinallyOnce == \A o \in Outers : exp[o].fins = exp[o].tries
@@ -345,5 +351,5 @@ CallerTransparent == (Outers = BOOLEAN /\ ~HasReraise(prog)) =>
 Publish == Dump => PrintT("@@" \o ToJson([prog |-> prog, nodes |-> NNodes(prog), inj |-> NInj(prog),
                                            runs |-> {[outer |-> o, log |-> exp[o].log, out |-> exp[o].out, val |-> exp[o].val,
                                                       exc |-> exp[o].exc, after |-> exp[o].after, nexc |-> exp[o].nexc,
-                                                      again |-> exp[o].again] : o \in Outers}]))
+                                                      again |-> exp[o].again, retover |-> exp[o].retover] : o \in Outers}]))
 =============================================================================
